@@ -23,6 +23,9 @@ type ResGen struct {
 	Budget   int // remaining message budget
 	MaxRep   int // max items in a repeated field
 	NoContained bool
+	// Dense: every field of every message down to DenseDepth is populated (schema coverage rather than variety).
+	Dense      bool
+	DenseDepth int
 	// ChoiceSeen / FieldSeen record schema coverage (full names).
 	ChoiceSeen map[string]bool
 	FieldSeen  map[string]bool
@@ -34,6 +37,11 @@ func NewResGen(r *core.Rng, rich bool) *ResGen {
 		g.MaxDepth, g.Fill, g.Budget, g.MaxRep = 5, 70, 400, 3
 	}
 	return g
+}
+
+// NewDenseResGen populates every element down to two levels below the resource (and sparsely below that).
+func NewDenseResGen(r *core.Rng) *ResGen {
+	return &ResGen{R: r, MaxDepth: 4, Fill: 30, Budget: 6000, MaxRep: 1, Dense: true, DenseDepth: 2, NoContained: true, ChoiceSeen: map[string]bool{}, FieldSeen: map[string]bool{}}
 }
 
 func newMessage(md protoreflect.MessageDescriptor) protoreflect.Message {
@@ -59,6 +67,9 @@ func (g *ResGen) want(depth int, required bool) bool {
 	}
 	if g.Budget <= 0 {
 		return false
+	}
+	if g.Dense && depth < g.DenseDepth {
+		return true
 	}
 	p := g.Fill
 	for i := 0; i < depth; i++ {
